@@ -48,6 +48,7 @@ void contactCase(const pbt::Tape& t, pbt::Ctx& ctx) {
     Verdict v = judge(ctx, name, sn->m->matter, s, bf, mf);
     ctx.label(name + (v.active ? "/active" : "/inactive"));
     if (v.active) ctx.label(name + (sc.A == 0 ? "/with-Ground" : "/two-moving-bodies"));
+    if (sc.meshMesh) ctx.label(std::string(sc.paramBase && sc.paramProbe ? "eff:mesh-mesh" : "eff:mesh-mesh(one mesh parametrised)") + (v.active ? "/active" : "/inactive"));
     if (v.active && sc.D >= 0 && v.nLoaded >= 3) ctx.label(name + "/three-bodies-loaded");
     // bodies that carry no surface of the element must not be loaded
     for (int b = 0; b <= sc.nb && !ctx.failed; ++b) if (b != sc.A && b != sc.B && b != sc.D && (bf[b][0].norm() + bf[b][1].norm()) != 0) ctx.fail(name + ": body " + std::to_string(b) + " carries no contact surface but receives a force");
@@ -132,7 +133,7 @@ pbt::Config config() {
     c.rule = "rapidcheck tape -> one interaction element on an mbgen tree: contact family (cgen: 8 element kinds, surfaces around touching, designed velocities), two-point family (forcegen: TwoPointLinearSpring/Damper/ConstantForce, LinearBushing; Ground and same-body-twice attachments; all mobilizers) or CableSpring (straight / via point). Non-trivial: the element applies a non-zero force and its two attachment bodies are distinct and not Ground; distinct by tape hash.";
     c.assumptions = {"body origin locations reported by the matter subsystem are correct (C03/C05)", "Force::calcForceContribution / MultibodySystem::getRigidBodyForces return the element's contribution at body origins in Ground, Ground row included (documented)"};
     c.requiredLabels = {"element:HuntCrossleyForce", "element:ElasticFoundationForce", "element:CCS-HertzCircular", "element:CCS-ElasticFoundation", "element:CCS-BrickHalfSpace", "element:SmoothSphereHalfSpaceForce", "element:ExponentialSpringForce",
-                        "element:TwoPointLinearSpring", "element:TwoPointLinearDamper", "element:TwoPointConstantForce", "element:LinearBushing", "element:CableSpring", "LinearBushing/same-body-twice", "CableSpring/via-point"};
+                        "element:TwoPointLinearSpring", "element:TwoPointLinearDamper", "element:TwoPointConstantForce", "element:LinearBushing", "element:CableSpring", "LinearBushing/same-body-twice", "CableSpring/via-point", "eff:mesh-mesh/active"};
     return c;
 }
 } // namespace
